@@ -84,7 +84,10 @@ class C14(common.Spec):
                     return dict(name=None, err='EValue')
                 return dict(name=names[-1])
             try:
-                edzed.Input(c['name'], initdef=0)
+                blk = edzed.Input(c['name'], initdef=0)
+                if blk.name != c['name'] or edzed.get_circuit().findblock(c['name']) is not blk:
+                    # accepted, but registered under ANOTHER name (the source of its events)
+                    return dict(accepted=False, renamed=blk.name)
                 return dict(accepted=True)
             except ValueError:
                 return dict(accepted=False)
@@ -334,7 +337,7 @@ def gen_cases(run):
                           dflt=None, value=None, src=['str', s], items={'x': ["i", 1]}))
     # block names
     for name in ['a', 'A1', '_a', '', '_ext_x', 'ext_', '__', 'a_b', ' x', '_', 'x_ext_', '_ctrl2',
-                 '_not_a', 'ext_foo']:
+                 '_not_a', 'ext_foo', ' _ext_hal', ' _a', 'a ', ' ', '  _', 'x _ext_']:
         cases.append(dict(kind='name', auto=False, name=name))
     for cls in ['Foo', 'Ext_foo', 'ext', 'extra', 'next_', 'MyInput', 'exT_x', 'e']:
         for n in (0, 1):
